@@ -4,7 +4,7 @@ from common import *
 import exc_corr, vm_corr, vm_checks, progs
 
 PROP_MODULE = "NeverModel.Props.C03"
-REQUIRED = ["Never.C03.exctab_search_correct", "Never.C03.exctab_block_unique", "Never.C03.exctab_search_in_bounds",
+REQUIRED = ["Never.C03.fault_enters_the_block_handler", "Never.C03.exctab_search_correct", "Never.C03.exctab_block_unique", "Never.C03.exctab_search_in_bounds",
             "Never.C03.clear_stack_resets_frame", "Never.C03.rethrow_pops_one_frame", "Never.C03.pp_discipline"]
 
 def exctab_audit(dump_path):
